@@ -111,3 +111,18 @@ def named_after_cached_string_raises():
         return False
     except ValueError:
         return True
+
+
+def bin_views_inconsistent_near_edges():
+    """C13: Bin.num_bins/bin_edges disagree for bounds within rounding distance of edges on non-dyadic
+    configurations, and raise for a bound within numpy.isclose distance of the lowest edge"""
+    import numpy as np
+
+    h = hg.Bin(5, 0.1, 10.1, lambda d: d)
+    bad1 = len(h.bin_edges(5.1, 6.1)) != h.num_bins(5.1, 6.1) + 1
+    try:
+        hg.Bin(2, 0, 10, lambda d: d).bin_edges(0, 5e-9)
+        bad2 = False
+    except RuntimeError:
+        bad2 = True
+    return bad1 or bad2
